@@ -608,6 +608,44 @@ def shard_graph(idx, nshards, seed, n_random, known, quick):
                        {"part": "nested", "depth": d, "nest": kind,
                         "mode": mode}, d)
 
+    # pumped inputs (C01's pump stage) through expand(): opener x 40
+    # repetitions of a unit / unit pair; a step count doubling per repetition
+    # overruns the bound on a 200-character input
+    from checks import c01_parse_total as c01
+
+    pctx = env.new_ctx()
+    pctx.add_page("Template:tb", 10, "<{{{1|}}}>")
+    pctx.start_page("Test page")
+    try:
+        for j, text in enumerate(c01.pump_cases(quick)):
+            if j % nshards != idx:
+                continue
+            kw = {} if (j // nshards) % 2 == 0 else {"pre_expand": True}
+            status, val, el = guard.call(pctx.expand, BOUND_S, text, **kw)
+            part.case(h(("pump", text, sorted(kw))), True,
+                      classes=["graph:pump"], sample={"page": text[:80]})
+            v = None
+            base = {"part": "graph", "class": "pump"}
+            if status == "timeout":
+                v = ({"kind": "timeout", **base},
+                     f"expand({text[:60]!r}..., {kw}) still running after "
+                     f"{BOUND_S}s")
+                pctx.expand_stack = ["Test page"]
+            elif status == "exc":
+                v = ({"kind": "exception", **base, **exc_bucket(val)},
+                     f"expand({text[:60]!r}...): {exc_text(val)}")
+                pctx.expand_stack = ["Test page"]
+            elif not isinstance(val, str):
+                v = ({"kind": "not-str", **base}, repr(type(val)))
+            if v is not None:
+                record(part, known, buckets, v[0], v[1],
+                       {"part": "pump", "text": text, "kw": kw}, len(text))
+    finally:
+        try:
+            pctx.close_db_conn()
+        except Exception:
+            pass
+
     def body(case):
         one(case[0], case[1], "random")
 
@@ -765,6 +803,19 @@ def replay(run, case):
         run.case(h([case["lib"], case["page"]]), True, sample={"page": text[:200]})
         if status == "viol":
             run.violation(detail[0], detail[1], case)
+    elif case["part"] == "pump":
+        ctx = env.new_ctx()
+        ctx.add_page("Template:tb", 10, "<{{{1|}}}>")
+        ctx.start_page("Test page")
+        status, val, el = guard.call(ctx.expand, BOUND_S, case["text"],
+                                     **case["kw"])
+        run.case(h(("pump", case["text"])), True,
+                 sample={"page": case["text"][:80]})
+        if status != "ok" or not isinstance(val, str):
+            run.violation({"kind": "timeout" if status == "timeout" else
+                           "exception", "part": "graph", "class": "pump"},
+                          f"expand({case['text'][:60]!r}...) {status}", case)
+        ctx.close_db_conn()
     elif case["part"] == "nested":
         v = nested_case(case["depth"], case["nest"], case["mode"])
         run.case(h(("nested", case["depth"], case["nest"], case["mode"])), True,
